@@ -164,7 +164,7 @@ def run_family(fam, rng, rec, log, counters):
                     worst = max(worst, float(np.abs(ds.data.values[:, i] - want).max()))
                 rec.count("simulate_identities")
                 scale = float(np.abs(ds.data.values).max())
-                if worst > 1e-13 * max(scale, 1.0):
+                if not worst <= 1e-13 * max(scale, 1.0):
                     rec.violation("simulate:not-matrix-times-clp-by-label", ctx, f"{d}: simulated data differ from dataset matrix @ clp (labels matched by name) by {worst:.3e}")
                     return False
         except Exception as e:  # noqa
@@ -201,13 +201,13 @@ def run_family(fam, rng, rec, log, counters):
     rec.count("truth_objectives_checked")
     rel = float(np.abs(pen0).max()) / dmax
     rec.slack("objective_at_truth", rel / 1e-10)
-    if rel > 1e-10:
+    if not rel <= 1e-10:
         rec.violation(f"objective-not-zero-at-truth:{name}", ctx, f"|penalty|_inf / |data|_inf = {rel:.3e} at the generating parameters")
         return False
     free = list(r0.free_parameter_labels)
     drift = max(abs(r0.optimized_parameters.get(k).value - p.get(k).value) / max(abs(p.get(k).value), 1e-3) for k in free)
     rec.count("stay_runs")
-    if drift > 1e-6:
+    if not drift <= 1e-6:
         rec.violation(f"optimiser-leaves-truth:{name}", ctx, f"started at the generating parameters, ended {drift:.3e} (relative) away after {r0.number_of_function_evaluations} evaluations")
         return False
     if not full:
@@ -217,7 +217,7 @@ def run_family(fam, rng, rec, log, counters):
             sc = float(r0.data[d].attrs["dataset_scale"])
             e = float(np.abs(est.sel(clp_label=gen.clp_label.values).values * sc - gen.values).max())
             rec.count("clp_recoveries_checked")
-            if e > 1e-8 * float(np.abs(gen.values).max()):
+            if not e <= 1e-8 * float(np.abs(gen.values).max()):
                 rec.violation(f"clp-not-recovered:{name}", ctx, f"{d}: estimated clps x dataset scale differ from the generating clps by {e:.3e}")
                 return False
     # (3) recovery from a perturbed start
